@@ -46,6 +46,9 @@ refit(_c02.TransferFit, ["estimator_"])
 refit(_c02.TtrFit, ["transformer_", "regressor_"])
 refit(_c02.PiecewiseTreeFit, ["tree_"])
 refit(_c02.DtlrFit, ["classes_", "tree_", "n_nodes_"])
+refit(_c02.ExtendedFit, ["n_input_features_", "n_output_features_"])
+refit(_c02.CategoriesFit, ["_fit_columns", "_categories", "_schema"])
+refit(_c02.TsneFit, ["normalizer_", "transformer_", "estimator_", "mean_", "inv_std_", "loss_"])
 refit(_c02.PiecewiseFit, ["binner_", "mapping_", "leaves_", "estimators_", "mean_estimator_", "dim_"])
 
 
